@@ -589,6 +589,18 @@ func (sp *Specs) load(path string, prefixed bool, pkgPath string) error {
 				cur.Conforms = rest
 			}
 		case "shared":
+			// shared complete Type props Cxx ...   (every method of the type must be under contract)
+			if len(fs) >= 3 && fs[1] == "complete" {
+				sc := SharedClause{Kind: "complete", Type: fs[2], Pkg: pkgPath}
+				for i := 3; i < len(fs); i++ {
+					if fs[i] != "props" {
+						sc.Props = append(sc.Props, fs[i])
+					}
+				}
+				sp.Shared = append(sp.Shared, sc)
+				cur, curFun, curLemma = nil, nil, nil
+				break
+			}
 			// shared atomic Type.field props Cxx ...
 			if len(fs) < 3 || fs[1] != "atomic" || !strings.Contains(fs[2], ".") {
 				return fail(fmt.Errorf("expected: shared atomic Type.field [props ...]"))
